@@ -18,7 +18,7 @@ import time
 from vlib import par, realproc as rp
 from vlib.runner import Result, violation
 
-USERS = [None, "www-data", 33, "nobody", 65534]
+USERS = [None, "www-data", 33, "nobody", 65534, 4242]        # 4242: a numeric uid without a passwd entry
 GROUPS = [None, "www-data", 33, "nogroup", 0, "daemon"]
 
 
@@ -70,7 +70,7 @@ def cred_cell(cell):
         return ("uid-not-dropped" + (":user-only" if group is None else ""), "user=%r group=%r initgroups=%s: (r,e,s)uid=%r, configured uid %d" % (user, group, initgroups, ruid, cuid))
     if rgid != (cgid, cgid, cgid):
         return ("gid-not-set" + (":initgroups" if initgroups else ""), "user=%r group=%r initgroups=%s: (r,e,s)gid=%r, configured gid %d" % (user, group, initgroups, rgid, cgid))
-    if initgroups and user is not None and group is not None and cgid != 0:
+    if initgroups and user is not None and group is not None and cgid != 0 and user != 4242:
         want = expected_groups(cuid, cgid)
         if groups != want:
             return ("supplementary-groups", "user=%r group=%r initgroups: groups=%r expected %r" % (user, group, groups, want))
